@@ -144,6 +144,12 @@ class Documentable:
     documentation_location = DocLocation.OWN_PAGE
     """Page location where we are documented."""
 
+    definingMod: Optional['Module'] = None
+    """
+    The module this object is written in, when it's not L{module} 
+    anymore because the object has been re-exported by another module.
+    """
+
     def __init__(
             self, system: 'System', name: str,
             parent: Optional['Documentable'] = None,
@@ -285,6 +291,8 @@ class Documentable:
         old_parent = self.parent
         assert isinstance(old_parent, CanContainImportsDocumentable)
         old_name = self.name
+        if self.definingMod is None:
+            self.definingMod = self.parentMod
         self.parent = self.parentMod = new_parent
         self.name = new_name
         del old_parent.contents[old_name]
